@@ -1263,3 +1263,134 @@ def r17(R):
     R.require(len(sites) >= 2, 'expected the abort paths of FileStorage and '
               'the blob wrapper to call the removers; found %d call site(s)'
               % len(sites))
+
+
+# ------------------------------------------------------------------ C13.R18
+@rule('C13.R18', 'the blob wrapper\'s undo makes a copy for EVERY blob of the '
+      'undone transaction, each time it is called: no pass through its copy '
+      'loop goes on to the next blob without the copy (sibling of C13.R10 '
+      'for the native blob support)', props=['C06'], min_instances=1)
+def r18(R):
+    cls = R.prog.cls(BLOBSTORAGE)
+    f = R.method(cls, 'undo')
+    g, b, F = R.cfg(f, cls, max_depth=0)
+
+    def is_copy(op):
+        return op.kind == 'call' and op.path and (
+            op.path[-1] in ('cp', 'copyfile', 'copy', 'copyfileobj',
+                            'rename_or_copy_blob', 'link_or_copy') or
+            op.path[-1].split('.')[-1] in ('cp', 'copyfile', 'copyfileobj'))
+
+    loops = {id(l) for l in walk_local(f.node) if isinstance(l, ast.For)
+             and any(isinstance(x, ast.Call) and isinstance(
+                 x.func, (ast.Attribute, ast.Name)) and (
+                     x.func.attr if isinstance(x.func, ast.Attribute)
+                     else x.func.id) in ('cp', 'copyfile', 'copyfileobj',
+                                         'rename_or_copy_blob',
+                                         'link_or_copy')
+                 for s_ in l.body for x in ast.walk(s_))}
+    R.require(loops, 'BlobStorage.undo no longer copies blob files in a '
+              'loop')
+    R.instance('BlobStorage.undo copy loop', loops=len(loops))
+
+    def edge(node, st, lab, tgt):
+        if lab in ('e', 'eb'):
+            return st
+        if node.kind == 'for' and id(node.ast) in loops:
+            return 'pending' if lab == 'T' else 'out'
+        if st == 'pending' and any(is_copy(op) for op in F.ops(node)):
+            return 'done'
+        return st
+
+    def at(node, st):
+        if node.kind == 'for' and id(node.ast) in loops and st == 'pending':
+            return Violation(
+                'BlobStorage.undo can go on to the next blob of the undone '
+                'transaction without having copied a file for this one: '
+                'the undo transaction\'s record says the earlier state, '
+                'the blob file of the undo revision is missing or -- when '
+                'one transaction undoes two changes of the blob -- still '
+                'holds the bytes the first undo put there')
+        return st
+
+    vs, stats = explore(g, 'out', at=at, edge=edge)
+    R.count(stats)
+    for v in vs[:1]:
+        R.violation(v.node, v.message, g, v.path,
+                    key='blob of the undone transaction passed over '
+                        'without a copy')
+
+
+# ------------------------------------------------------------------ C13.R19
+@rule('C13.R19', 'an object that the store loop records as created gets a '
+      'record in the same pass: no path goes on to the next object after '
+      '`self._creating[oid] = ...` without a store (a new blob without '
+      'working data must not be passed over: the reference to it would '
+      'dangle)', props=['C11', 'C14'], min_instances=1)
+def r19(R):
+    from ..twopc import DS  # noqa: F401
+    conn = R.prog.cls('ZODB.Connection.Connection')
+    f = R.method(conn, '_store_objects_of')
+    g, b, F = R.cfg(f, conn, max_depth=0)
+    heads = [n for n in g.reachable() if g.nodes[n].kind == 'for']
+    R.require(heads, '_store_objects_of no longer loops over the writer')
+    creates = [0]
+    # boolean locals set to literals (the "this object is new" flag): the
+    # branch on it is followed only the way the flag was set
+    from ..flow import PRUNE, Flags
+    consts = {t.id for s_ in walk_local(f.node) if isinstance(s_, ast.Assign)
+              and isinstance(s_.value, ast.Constant) and isinstance(
+                  s_.value.value, bool)
+              for t in s_.targets if isinstance(t, ast.Name)}
+    flags = Flags(F, lambda e, fr: e.id if isinstance(e, ast.Name) and
+                  e.id in consts else None)
+
+    def edge(node, st0, lab, tgt):
+        st, fl = st0
+        if node.kind == 'for':
+            return ('out' if lab == 'F' else 'none', frozenset())
+        fl = flags.learn(node, fl, lab)
+        if fl is PRUNE:
+            return PRUNE
+        if lab in ('e', 'eb'):
+            return (st, fl)
+        fl = flags.assign(node, fl, lab)
+        return (edge1(node, st, lab, tgt), fl)
+
+    def edge1(node, st, lab, tgt):
+        for op in F.ops(node):
+            if op.kind == 'setitem' and op.path is not None and \
+                    tuple(op.path[:2]) == ('self', '_creating'):
+                st = 'created'
+            if op.kind == 'call' and op.path is not None and \
+                    op.path[-1] in ('store', 'storeBlob') and \
+                    '_storage' in op.path:
+                if st == 'created':
+                    st = 'stored'
+        return st
+
+    def at(node, st):
+        if node.kind == 'for' and st[0] == 'created':
+            return Violation(
+                'Connection._store_objects_of goes on to the next object '
+                'although the one it has just recorded as created was not '
+                'stored: the commit succeeds, the objects that refer to the '
+                'new one are stored, the new one has no record -- every '
+                'other connection gets POSKeyError for it (a new blob '
+                'whose data went with an aborted savepoint: added again, '
+                'it has no working file and is passed over)')
+        return st
+
+    for nid in g.reachable():
+        for op in F.ops(g.nodes[nid]):
+            if op.kind == 'setitem' and op.path is not None and \
+                    tuple(op.path[:2]) == ('self', '_creating'):
+                creates[0] += 1
+    R.instance('Connection._store_objects_of', creating_entries=creates[0])
+    R.require(creates[0] >= 1, '_store_objects_of no longer records created '
+              'objects')
+    vs, stats = explore(g, ('out', frozenset()), at=at, edge=edge)
+    R.count(stats)
+    for v in vs[:1]:
+        R.violation(v.node, v.message, g, v.path,
+                    key='created object passed over without a record')
